@@ -207,6 +207,7 @@ type modelEnv struct {
 	pre       []string          // statements before the call
 	declBase  int
 	cells     map[*Cell]Val // entry contents of modelled objects (pointer parameters)
+	nilSubst []string // objects passed as nil because they cannot be built
 }
 
 func (me *modelEnv) intOf(t *Term) (*big.Int, bool) {
@@ -308,6 +309,7 @@ func (me *modelEnv) goExpr(name string, v Val, t types.Type) (string, bool) {
 					}
 				}
 			}
+			me.nilSubst = append(me.nilSubst, name)
 			return "nil", true
 		case PBig:
 			ref, ok := me.intOf(x.Ref)
@@ -387,6 +389,7 @@ func (me *modelEnv) goExpr(name string, v Val, t types.Type) (string, bool) {
 					}
 				}
 			}
+			me.desc = append(me.desc, fmt.Sprintf("%s=<%s: no value of this type can be built from the model>", name, me.qual(ct)))
 			return "", false
 		}
 		return me.goExpr(name, p, ct)
@@ -424,6 +427,7 @@ func (me *modelEnv) goExpr(name string, v Val, t types.Type) (string, bool) {
 		}
 		return `""`, true
 	case OpaqueV:
+		me.nilSubst = append(me.nilSubst, name)
 		return "nil", true
 	}
 	return "", false
@@ -1104,6 +1108,38 @@ func collectValSyms(v Val, out map[string]Sort) {
 
 // fromInt: a Go expression for the value of numeric type t whose integer value is n (integer kinds only)
 func (me *modelEnv) fromInt(t types.Type, n *big.Int) (string, bool) {
+	// fixed-point kinds: the ghost integer part n denotes the value n.0, whose raw representation is n * 10^scale
+	if nt, ok := t.(*types.Named); ok && strings.Contains(nt.Obj().Name(), "Fix") {
+		name := nt.Obj().Name()
+		scale := 8
+		if strings.Contains(name, "128") {
+			scale = 24
+		}
+		raw := new(big.Int).Mul(n, new(big.Int).Exp(big.NewInt(10), big.NewInt(int64(scale)), nil))
+		if st, ok := t.Underlying().(*types.Struct); ok && st.NumFields() == 2 && st.Field(0).Name() == "Hi" && st.Field(1).Name() == "Lo" {
+			signed := !strings.HasPrefix(name, "U")
+			lo, hi := big.NewInt(0), new(big.Int).Sub(Pow2(128), big.NewInt(1))
+			if signed {
+				lo, hi = new(big.Int).Neg(Pow2(127)), new(big.Int).Sub(Pow2(127), big.NewInt(1))
+			}
+			if raw.Cmp(lo) < 0 || raw.Cmp(hi) > 0 {
+				return "", false
+			}
+			u := new(big.Int).Set(raw)
+			if u.Sign() < 0 {
+				u.Add(u, Pow2(128))
+			}
+			h := new(big.Int).Rsh(u, 64)
+			l := new(big.Int).And(u, new(big.Int).Sub(Pow2(64), big.NewInt(1)))
+			return fmt.Sprintf("%s{Hi: %s, Lo: %s}", me.qual(t), h, l), true
+		}
+		return me.fromRaw(t, raw)
+	}
+	return me.fromRaw(t, n)
+}
+
+// fromRaw: a value of integer-like type t whose representation is the integer n
+func (me *modelEnv) fromRaw(t types.Type, n *big.Int) (string, bool) {
 	if bits, signed, ok := intInfo(t); ok {
 		lo, hi := big.NewInt(0), new(big.Int).Sub(Pow2(bits), big.NewInt(1))
 		if signed {
@@ -1122,7 +1158,7 @@ func (me *modelEnv) fromInt(t types.Type, n *big.Int) (string, bool) {
 	if isBigIntPtr(ft) {
 		return fmt.Sprintf("%s{%s: verifBig(%q)}", me.qual(t), st.Field(0).Name(), n.String()), true
 	}
-	if inner, ok := me.fromInt(ft, n); ok {
+	if inner, ok := me.fromRaw(ft, n); ok {
 		return fmt.Sprintf("%s{%s: %s}", me.qual(t), st.Field(0).Name(), inner), true
 	}
 	return "", false
